@@ -78,7 +78,7 @@ def plan(tier, seed, avoid):
 
 
 def floors(tier):
-    f = {"evaluations": 15000, "distinct_nontrivial": 10000, "observed.isas": 9, "observed.slots.ok": 150}
+    f = {"evaluations": 15000, "distinct_nontrivial": 10000, "observed.isas": 9, "observed.slots.ok": 90}
     for a in SLICES:
         f["observed.per_isa.%s.classes_judged" % a] = 20
         f["observed.per_isa.%s.evaluations" % a] = 400
